@@ -3,7 +3,6 @@
 
 use std::borrow::Cow;
 
-use identity_did::CoreDID;
 use identity_did::DIDUrl;
 use identity_did::RelativeDIDUrl;
 use identity_did::DID;
@@ -14,6 +13,9 @@ use identity_did::DID;
 pub struct DIDUrlQuery<'query>(Cow<'query, str>);
 
 impl DIDUrlQuery<'_> {
+  /// What a query that carries a DID starts with: the scheme and its delimiter.
+  const DID_PREFIX: &'static str = "did:";
+
   /// Returns whether this query matches the given DIDUrl.
   pub(crate) fn matches(&self, did_url: &DIDUrl) -> bool {
     // Ensure the DID matches if included in the query.
@@ -33,7 +35,8 @@ impl DIDUrlQuery<'_> {
   /// Extract the DID portion of the query if it exists.
   fn did_str(&self) -> Option<&str> {
     let query: &str = self.0.as_ref();
-    if !query.starts_with(CoreDID::SCHEME) {
+    // A bare fragment may itself begin with the letters of the scheme (`didcomm`): only `did:` starts a DID.
+    if !query.starts_with(Self::DID_PREFIX) {
       return None;
     }
 
@@ -49,7 +52,7 @@ impl DIDUrlQuery<'_> {
   /// Extract the query fragment if it exists.
   fn fragment(&self) -> Option<&str> {
     let query: &str = self.0.as_ref();
-    let fragment_maybe: Option<&str> = if query.starts_with(CoreDID::SCHEME) {
+    let fragment_maybe: Option<&str> = if query.starts_with(Self::DID_PREFIX) {
       // Extract the fragment from a full DID-Url-like string.
       query.rfind('#').and_then(|index| query.get(index + 1..))
     } else if let Some(fragment_delimiter_index) = query.rfind('#') {
